@@ -200,12 +200,17 @@ class Interstitial(object):
             # determine the mappings:
             superdict['transmapping'][tag] = tuple()
             for s in (super0, super1):
+                nomap = True
                 for k, v in superdict['states'].items():
                     # attempt the mapping
                     g, mapping = v.equivalencemap(s)
                     if g is not None:
                         superdict['transmapping'][tag] += ((k, g, mapping),)
+                        nomap = False
                         break
+                if nomap:
+                    # keep one entry per endpoint (as VacancyMediated.makesupercells does)
+                    superdict['transmapping'][tag] += (None,)
         for d in (superdict['states'], superdict['transitions']):
             for k in d.keys():
                 superdict['indices'][k] = self.tagdict[k]  # keep a local copy of the indices, for transformation later
